@@ -53,7 +53,12 @@ class Xform(ast.NodeTransformer):
         c = node.value
         if isinstance(c, ast.Call) and isinstance(c.func, ast.Attribute) and isinstance(c.func.value, ast.Name) \
                 and c.func.value.id == 'LOGGER':
-            self._check_log_args(c)
+            try:
+                self._check_log_args(c)
+            except LoaderReject:
+                # the arguments may have effects (a read, a seek ...): the statement stays and its arguments are evaluated as in the
+                # original; only the rendering of the message goes to the (lazy) format model
+                return self.generic_visit(node)
             self.stripped += 1
             return ast.copy_location(ast.Pass(), node)
         return self.generic_visit(node)
